@@ -186,3 +186,27 @@ mod tests {
     }
 
 }
+
+/// Verification hooks (visibility only); compiled only with `--cfg xcp_verif`.
+#[cfg(xcp_verif)]
+pub mod verif_hooks {
+    use std::path::{Path, PathBuf};
+    use crate::config::Config;
+    use crate::errors::Result;
+
+    pub fn is_num_backup(base_file: &str, candidate: &Path) -> Option<u64> {
+        super::is_num_backup(base_file, candidate)
+    }
+    pub fn has_backup(file: &Path) -> Result<bool> {
+        super::has_backup(file)
+    }
+    pub fn next_backup_num(file: &Path) -> Result<u64> {
+        super::next_backup_num(file)
+    }
+    pub fn needs_backup(file: &Path, conf: &Config) -> Result<bool> {
+        super::needs_backup(file, conf)
+    }
+    pub fn get_backup_path(file: &Path) -> Result<PathBuf> {
+        super::get_backup_path(file)
+    }
+}
